@@ -35,13 +35,16 @@ MODULES = [('Demographics1D', 'dadi.Demographics1D'), ('Demographics2D', 'dadi.D
 PTS = (16, 20, 24)
 BOUNDS = dict(size=(1e-2, 100.0), time=(0.0, 3.0), mig=(0.0, 10.0), frac=(0.02, 0.98))
 SEL_MAX = 3.0
+# entries whose exact value is ~0 (a population that has lost its variation: small nu, long T) come out as -1e-5..-1e-4 of the
+# largest entry on every grid, shrinking slowly with pts: solver noise, not judged.  A wrong model is off by O(1).
+NEG_TOL = 1e-3
 MIG_RESOLVED = 8.0      # m * max(1, largest size) up to which the grids 16..24 resolve migration (no oscillation)
 TF_DEFAULT = 1e-3
 # seconds per implicit step, (dimension, pts) -> (constant parameters, time-dependent parameters); measured in this sandbox
 STEP_COST = {1: {16: (2e-5, 4e-5), 20: (2e-5, 4e-5), 24: (3e-5, 5e-5)},
              2: {16: (4e-5, 1.4e-4), 20: (7e-5, 2.0e-4), 24: (7e-5, 2.3e-4)},
              3: {16: (6.5e-4, 1.4e-3), 20: (1.6e-3, 2.6e-3), 24: (2.8e-3, 4.4e-3)}}
-RUN_BUDGET = {'quick': {1: 0.1, 2: 0.5, 3: 1.5}, 'thorough': {1: 0.3, 2: 1.0, 3: 3.0}}     # seconds per draw (three grids)
+RUN_BUDGET = {'quick': {1: 0.1, 2: 0.5, 3: 1.5}, 'thorough': {1: 0.5, 2: 2.0, 3: 6.0}}     # seconds per draw (three grids)
 
 # ----------------------------------------------------------------------------------------------- discovery (run time)
 def discover(dadi):
@@ -420,7 +423,7 @@ def spectrum_checks(dadi, fs, ns, pts, judge_sign=True):
     data = np.asarray(fs.data, dtype=float); mask = np.ma.getmaskarray(fs)
     vals = data[~mask]
     if not np.all(np.isfinite(vals)): out.append(('nonfinite', '%d non-finite entries' % int(np.sum(~np.isfinite(vals)))))
-    elif judge_sign and vals.size and vals.min() < -1e-6 * float(np.abs(vals).max()):      # entries that are 0 up to the solver noise may come out as -1e-8
+    elif judge_sign and vals.size and vals.min() < -NEG_TOL * float(np.abs(vals).max()):
         out.append(('negative', 'entry %r < 0 (largest entry %r)' % (float(vals.min()), float(vals.max()))))
     xx1 = float(dadi.Numerics.default_grid(pts)[1])
     ex = getattr(fs, 'extrap_x', None)
@@ -627,6 +630,7 @@ def last_epoch_migration(ctx, m, v):
     return pos(a.get('m12', 0)) and pos(a.get('m21', 0))
 
 def swap_check(chk, ctx, byname, name, args, rng, draws=3):
+    if ctx['tier'] == 'thorough': draws = 5
     dadi = ctx['dadi']; m = byname.get(name)
     if m is None:
         chk.broken.append('model: symmetric model %s does not exist' % name); return
@@ -701,7 +705,7 @@ def run(chk, ctx):
     models, byname = setup(chk, ctx)
     chk.rule = ('every function exposing __param_names__ in the six model modules (found by run-time introspection) is run at parameters '
                 'drawn inside the documented bounds by parameter name (nu*: log-uniform [1e-2,100] + the bounds and 1; T*: uniform [0,3] + 0 and 3; '
-                'm*: 0 / small / uniform [0,10] / 10, in half of the draws reduced to m*max(1, largest size) <= 8; s, f, F: uniform (0.02,0.98); gamma*: 0 or uniform with |gamma|*max(1, largest size) <= 3); non-negativity is judged only in the regime the grids 16..24 resolve (m*nu <= 8, |gamma|*nu <= 3), everything else on every draw; the epoch lengths are then shrunk '
+                'm*: 0 / small / uniform [0,10] / 10, in half of the draws reduced to m*max(1, largest size) <= 8; s, f, F: uniform (0.02,0.98); gamma*: 0 or uniform with |gamma|*max(1, largest size) <= 3); non-negativity (entries >= -1e-3 of the largest entry: numerically-zero entries come out as -1e-5..-1e-4) is judged only in the regime the grids 16..24 resolve (m*nu <= 8, |gamma|*nu <= 3), everything else on every draw; the epoch lengths are then shrunk '
                 '(inside [0,3]) so that the three runs pts=16,20,24 fit a time budget (the cost is T*max(1/(4 nu), sum m, |gamma|/2)/timescale_factor '
                 'steps). Distinct = (model, grid) / (model, wrong length) / nesting pair / (symmetric model, class). Nesting pairs and symmetric models: '
                 'hand table of Model/ModelPairs.lean, parameters of the simpler model drawn as above.')
@@ -716,7 +720,7 @@ def run(chk, ctx):
                         'anything else is a translation failure); the meaning of `let` is substitution (Python floats are pure)',
                         'C15: the dimension table of the primitives (phi_1D: 0->1, phi_1D_to_2D: 1->2, two_pops: 2->2, ...) is read off their names; K checks the '
                         'density threading, L3 that every model runs']
-    n_draws = 1 if tier == 'quick' else 6
+    n_draws = 1 if tier == 'quick' else 10
     # ---- wellformedness per model (which model breaks the table theorem, if any)
     for m in models:
         if len(m['argn']) == 3 and ctx['_wf'].get(m['name']) is False:
@@ -758,7 +762,7 @@ def run(chk, ctx):
             for a, b, args, ok in ps:
                 if ok: chk.k_ok('c15.pairs')
                 else: chk.k_bad('c15.pairs', dict(a=a, b=b, args=args), 'hand table', 'nestOK = false', 'nesting')
-                nesting_check(chk, ctx, byname, group, a, b, args, rng, reps=1 if tier == 'quick' else 3)
+                nesting_check(chk, ctx, byname, group, a, b, args, rng, reps=1 if tier == 'quick' else 5)
         chk.stat('seconds_nesting', round(time.time() - t1, 1)); t1 = time.time()
         order = list(rng.permutation(len(sym)))
         todo = order if tier == 'thorough' else order[:12]
